@@ -220,6 +220,12 @@ pub fn check(ctx: &mut Ctx) -> i32 {
         print_summary(ctx, &acc);
         return EXIT_VIOLATION;
     }
+    if let Some(code) = crate::props::l3phases::active_connection_phase(ctx, &acc, true) {
+        if code != EXIT_OK {
+            write_evidence(ctx, &acc, RULE, ASSUME, 1);
+            return code;
+        }
+    }
     write_evidence(ctx, &acc, RULE, ASSUME, 0);
     print_summary(ctx, &acc);
     EXIT_OK
